@@ -65,9 +65,35 @@ func addrFields(addr ssa.Value) (ssa.Value, string) {
 }
 
 // sealStore reports whether st writes Marshal(Encrypt(<same field of the same
-// object>)) and returns the Encrypt call.
+// object>)) - directly, or as the result of a module helper / local closure
+// that returns Marshal(Encrypt(<its argument>)) - and returns the Encrypt call.
 func sealStore(st *ssa.Store) (*ssa.Call, bool) {
-	mc, mi := core.CallResult(core.Strip(st.Val))
+	sroot, sfield := addrFields(st.Addr)
+	if ec, ok := sealValue(st.Val, sroot, sfield); ok {
+		return ec, true
+	}
+	if vals, subst, h := helperResult(st.Val); h != nil && len(vals) > 0 {
+		var enc *ssa.Call
+		all := true
+		core.WithSubst(subst, func() {
+			for _, rv := range vals {
+				ec, ok := sealValue(rv, sroot, sfield)
+				if !ok {
+					all = false
+				}
+				enc = ec
+			}
+		})
+		if all && enc != nil {
+			return enc, true
+		}
+	}
+	return nil, false
+}
+
+// sealValue: v is Marshal(Encrypt(data)) with data denoting field sfield of sroot.
+func sealValue(v ssa.Value, sroot ssa.Value, sfield string) (*ssa.Call, bool) {
+	mc, mi := core.CallResult(core.Strip(v))
 	if mc == nil || mi != 0 || core.CalleeName(mc.Common()) != "google.golang.org/protobuf/proto.Marshal" {
 		return nil, false
 	}
@@ -79,7 +105,6 @@ func sealStore(st *ssa.Store) (*ssa.Call, bool) {
 		return nil, false
 	}
 	droot, dfield := addrFields(ec.Common().Args[1])
-	sroot, sfield := addrFields(st.Addr)
 	if droot != sroot || dfield != sfield {
 		return nil, false
 	}
